@@ -178,7 +178,9 @@ Cur == [st |-> st, m |-> gmap, sc |-> sc]
 \* everything a client can observe
 Obs(s) == [listed |-> DOMAIN s.m,
            graphs |-> [n \in AllNames |-> IF Exists(s, n) THEN <<"graph", s.st[Route(s.m, n)][n]>> ELSE <<"absent">>],
-           schema |-> [g \in Base |-> HGetSchema(s, g)]]
+           schema |-> [g \in Base |-> HGetSchema(s, g)],
+           \* not client-visible (the drivers are asked directly): which driver holds which graph
+           homes  |-> [n \in AllNames |-> Holders(s.st, n)]]
 
 Do(c) ==
   /\ Enabled(c) /\ UNCHANGED fin
